@@ -4,7 +4,7 @@ CONSTANTS
   Flags <- OnlyDeleted
   MaxMsgs = 2
   MaxUid = 2
-  MaxQueue = 3
+  MaxQueue = 2
   Kinds <- AllKinds
   SeqSets <- Sets2
   UidSets <- Sets2
